@@ -228,6 +228,23 @@ func RunStream(c *Ctx, cfg StreamCfg, handle func(w *Worker, sc StrCase, res *[s
 				do(w, StrCase{gen.Headers[i] + body, vi, "header-x-body"})
 				do(w, StrCase{gen.Headers[i] + "/" + body, vi, "header-x-body"})
 			}
+			// bodies in any order (short elements first as often as long ones): alignment-sensitive header checks
+			for k := 0; k < 60; k++ {
+				a := gen.MixedAssign(w.R, v)
+				sp, _ := gen.RandomSpelling(w.R, v, a)
+				_, el := gen.SplitElems(v, sp)
+				if v.ID != spec.V30 && v.ID != spec.V31 {
+					// also offer v2/v4 element lists shuffled: ill-formed for them, but a v3-shaped parser may take them
+					p := w.R.Perm(len(el))
+					sh := make([]string, len(el))
+					for x, y := range p {
+						sh[x] = el[y]
+					}
+					el = sh
+				}
+				body := strings.Join(el, "/")
+				do(w, StrCase{gen.Headers[i] + body, vi, "header-x-shuffled-body"})
+			}
 		})
 	}
 	// very long and degenerate inputs
